@@ -157,7 +157,7 @@ def gen_obey(tier, seed):
 def suites(tier, seed):
     return [
         Suite("obeyed-heartbeat-e2e", "hbe2e", lambda: [Case("h%d" % i, [o], {"keep_prefix": 0}) for i, o in enumerate(
-                  ["run 60 1 chatty 3300", "run 1 60 silent 3600", "run 1 0 silent 2600", "run 0 1 silent 2600", "run 1 1 chatty 3300 openok-delay=1500", "run 1 1 silent 3600 openok-delay=1500"] + ([] if tier == "quick" else ["run 2 1 chatty 4300", "run 1 2 silent 3600"]))],
+                  ["run 60 1 chatty 3300", "run 1 60 silent 3600", "run 1 0 silent 2600", "run 0 1 silent 2600", "run 1 1 chatty 3300 openok-delay=1500", "run 1 1 silent 3600 openok-delay=1500", "run 1 60 dribble 4500", "run 1 1 silent 500 openok-delay=60000"] + ([] if tier == "quick" else ["run 2 1 chatty 4300", "run 1 2 silent 3600"]))],
               monitor=__import__("props.c17", fromlist=["x"]).e2e_monitor, nontrivial=lambda c, il: True, compare=False, shards=8, timeout=300,
               rule="real connection over the mock transport, real seconds, server's and client's heartbeat wishes different: the client's heartbeats and its timeout follow the NEGOTIATED interval (the lower of the two; 0 on either side = off): (server 60, client 1) -> a frame every second; (1, 60) -> dead 2 s after the server's last byte; (1, 0) and (0, 1) -> no heartbeat, silence never fatal; a server that takes 1.5 heartbeat intervals between Tune and OpenOk -> the timers announced in TuneOk are running afterwards all the same"),
         Suite("obeyed-e2e", "obey", lambda: gen_obey(tier, seed), monitor=obey_monitor, nontrivial=lambda c, il: True, shards=4, timeout=300,
